@@ -287,6 +287,8 @@ func (app *App) addPrefixToRoute(prefix string, route *Route) *Route {
 	route.Path = prefixedPath
 	route.path = RemoveEscapeChar(prettyPath)
 	route.routeParser = parseRoute(prettyPath, app.customConstraints...)
+	// the parameters of the prefix belong to the route as well
+	route.Params = parseRoute(prefixedPath, app.customConstraints...).params
 	route.root = false
 	route.star = false
 
